@@ -23,3 +23,13 @@ package stringunescape
 //@   loop 1: invariant forall i int :: 0 <= i && i < first ==> dst[i] == src[i]
 //@   loop 1: invariant forall p int :: off(dst) + di <= p && p < off(dst) + cap(dst) ==> at(dst, p) == old(at(dst, p))
 //@   loop 1: decreases len(src) - si
+
+// the constructor establishes the table the unescaper indexes with any byte value: 256 entries, entry c = the replacement
+// of the escape sequence "\c" (0 = none)
+//@ func NewUnescaper(escapeChar byte, mapping map[byte]byte) Unescaper
+//@   property C10 C15 C07
+//@   modifies nothing
+//@   ensures[table-covers-every-byte] validunescaper(result) && result.escapeChar == escapeChar
+//@   ensures[table-is-the-mapping] forall c int :: 0 <= c && c < 256 && c != escapeChar && rawhas(mapping, c) ==> result.escapableCharMap[c] == rawget(mapping, c)
+//@   loop 1: invariant len(cmap) == 256 && isfresh(cmap)
+//@   loop 1: foreach k int :: cmap[k] == rawget(mapping, k)
